@@ -665,7 +665,7 @@ Lemma undelegate_inv s o u v amt dn rcp s' : undelegate denoms true s o u v amt 
     (0 <= v)%Z /\ (0 <= rcp)%Z /\ dn = FEE /\
     s' = mkState (upd (cells s) v (reshare c1 u (- cost) (if (b - amt =? 0)%Z then None else Some (b - amt)%Z) (csd c1)))
                  (credit denoms s (cells s v) u) (add_leak denoms s o)
-                 (q_insert (mkUnb (next_id s) rcp (o_ct o) amt) (queue s)) (next_id s + 1).
+                 (q_insert (mkUnb (next_id s) rcp (o_ct o) (o_ret o)) (queue s)) (next_id s + 1).
 Proof.
   unfold undelegate, do_claim.
   destruct (Z.eqb_spec dn FEE) as [Hd|Hd]; cbn; [|discriminate].
@@ -901,7 +901,7 @@ Record ghost := mkG {
   g_paid : Z -> Z -> Z -> Z;    (* user, validator, denom: rewards paid to the user *)
   g_ent : Z -> Z -> Z -> Q;     (* user, validator, denom: sum over the accruals of
                                    reward x shares held / share supply *)
-  g_und : Z -> Z;               (* recipient: principal undelegated in its favour *)
+  g_und : Z -> Z;               (* recipient: principal staking unbonded in its favour *)
   g_out : Z -> Z                (* recipient: principal paid out by end-blocks *)
 }.
 Definition ghost0 : ghost :=
@@ -911,12 +911,12 @@ Definition paid_upd (g : ghost) (s s' : state) (u v : Z) : Z -> Z -> Z -> Z :=
   fun u' v' d => if (v' =? v) && (u' =? u)
                  then g_paid g u' v' d + (cS (cells s v) d - cS (cells s' v) d) else g_paid g u' v' d.
 
-Definition gupd (s : state) (p : op) (s' : state) (g : ghost) : ghost :=
+Definition gupd (s : state) (p : op) (o : oracle) (s' : state) (g : ghost) : ghost :=
   match p with
   | OClaim u v => mkG (g_recv g) (paid_upd g s s' u v) (g_ent g) (g_und g) (g_out g)
   | ODelegate u v _ _ => mkG (g_recv g) (paid_upd g s s' u v) (g_ent g) (g_und g) (g_out g)
   | OUndelegate u v amt _ rcp =>
-      mkG (g_recv g) (paid_upd g s s' u v) (g_ent g) (upd (g_und g) rcp (g_und g rcp + amt)) (g_out g)
+      mkG (g_recv g) (paid_upd g s s' u v) (g_ent g) (upd (g_und g) rcp (g_und g rcp + o_ret o)) (g_out g)
   | OSend _ _ _ _ => g
   | OEndBlock _ =>
       mkG (fun v d => g_recv g v d + (cS (cells s' v) d - cS (cells s v) d)) (g_paid g)
@@ -929,7 +929,7 @@ Definition gupd (s : state) (p : op) (s' : state) (g : ghost) : ghost :=
 
 Definition gexec1 (sg : state * ghost) (oo : op * oracle) : state * ghost :=
   match stepF (fst sg) oo with
-  | Ok s' => (s', gupd (fst sg) (fst oo) s' (snd sg))
+  | Ok s' => (s', gupd (fst sg) (fst oo) (snd oo) s' (snd sg))
   | _ => sg
   end.
 Definition gexec (sg : state * ghost) (tr : list (op * oracle)) : state * ghost := fold_left gexec1 tr sg.
@@ -1004,7 +1004,7 @@ Proof.
 Qed.
 
 Lemma GI_step sg p o s' : GI sg -> wf_op p -> stepF (fst sg) (p, o) = Ok s' ->
-  GI (s', gupd (fst sg) p s' (snd sg)).
+  GI (s', gupd (fst sg) p o s' (snd sg)).
 Proof.
   destruct sg as [s g]. intros HG Hwf Hst. pose proof HG as (HC & Hq & Hu). cbn [fst snd] in *.
   destruct p as [u v|u v amt dn|u v amt dn rcp|u u' v amt|now]; cbn [step] in Hst.
@@ -1420,8 +1420,9 @@ End Sys.
 (* ================= witnesses (computed on the model) ================= *)
 Definition wD : list Z := [0; 1].
 Definition wV : list Z := [0].
-Definition orc0 : oracle := mkOracle 0 7 (fun _ => 0) (fun _ _ => 0) 0.
-Definition orc_rw (r : Z) : oracle := mkOracle 0 7 (fun _ => 0) (fun v d => if (v =? 0) && (d =? 0) then r else 0) 0.
+Definition orc0 : oracle := mkOracle 0 7 (fun _ => 0) (fun _ _ => 0) 0 0.
+Definition orc_ret (r : Z) : oracle := mkOracle 0 7 (fun _ => 0) (fun _ _ => 0) 0 r.
+Definition orc_rw (r : Z) : oracle := mkOracle 0 7 (fun _ => 0) (fun v d => if (v =? 0) && (d =? 0) then r else 0) 0 0.
 Definition ub1000 : Z -> Z -> Z := fun _ d => if d =? 0 then 1000 else 0.
 (* observe a result without normalising the state (states contain functions) *)
 Definition obs {A} (r : res state) (f : state -> A) (dflt : A) : A := match r with Ok s => f s | _ => dflt end.
@@ -1456,14 +1457,14 @@ Proof. vm_compute. split; reflexivity. Qed.
 Lemma max_entries_finding :
   let s0 := exec wD true wV (init ub1000) [(ODelegate 1 0 100 0, orc0); (ODelegate 2 0 300 0, orc0)] in
   let s := set_cell s0 0 (let c := cells s0 0 in mkCell (cT c) (csh c) (cmodsh c) (cB c) (csd c) 7 (cS c) (cM c) (cchk c)) in
-  csh (cells s 0) 2 = 300 /\ is_err (undelegate wD true s orc0 2 0 10 FEE 2) E_MAX_ENTRIES = true.
+  csh (cells s 0) 2 = 300 /\ is_err (undelegate wD true s (orc_ret 10) 2 0 10 FEE 2) E_MAX_ENTRIES = true.
 Proof. vm_compute. split; reflexivity. Qed.
 
 (* known finding 2: with 3 shares against 3 staked coins, an account holding no shares
    undelegates 1 coin: the share price of the amount rounds down to zero *)
 Lemma zero_cost_finding :
   let s := exec wD true wV (init ub1000) [(ODelegate 1 0 3 0, orc0)] in
-  let r := undelegate wD true s orc0 2 0 1 FEE 2 in
+  let r := undelegate wD true s (orc_ret 1) 2 0 1 FEE 2 in
   csh (cells s 0) 2 = 0 /\ k_calc_share (cells s 0) 1 = Ok 0 /\
   obs r (fun s' => cT (cells s' 0)) (-1) = 3 /\ obs r (fun s' => cB (cells s' 0)) None = Some 2 /\
   obs r (fun s' => map u_amt (queue s')) [] = [1].
